@@ -18,6 +18,9 @@ def monitor(case, o):
                 if not ran or ran[0] > op["at"]:
                     out.append(("C06_normal_held: a graceful control on a job without a running process held back later controls",
                                 f"run(mark {op['mark']}) sent at {op['at']}, executed at {ran[0] if ran else None}"))
+        if case.get("no_kill") and any(ev in ("kill", "reap") for t, ev, aa in evs):
+            out.append(("C06_no_early_kill: the command was killed although the graceful control had failed (its signal could not be delivered)",
+                        [f"{t}:{ev}" for t, ev, aa in evs if ev in ("kill", "reap")]))
         return out
     # the monitors attribute log events to a graceful control by time; that is only unambiguous when the
     # history contains a single graceful control (everything else is decided by the membership diff)
@@ -124,6 +127,14 @@ class C06(C04):
                     child = {"self_exit": 30, "ignore_all": True} if state == "finished" else {"self_exit": None, "ignore_all": True}
                     extra.append({"id": 0, "idle_graceful": True, "script": {"children": [dict(child), {"self_exit": None, "ignore_all": True}], "spawn_fail": [], "signal_fail": [], "kill_fail": []},
                                   "ops": ops, "waiters": 1, "tail": 1000})
+        # a graceful stop whose signal cannot be delivered fails as a whole: nothing is armed, the normal lane is not held, nothing is killed
+        for name in ("stop_with_signal", "try_restart_with_signal"):
+            for grace in (50, 100):
+                ops = [{"at": 0, "op": "start", "yield": True}, {"at": 60, "op": name, "sig": "Terminate", "grace": grace, "yield": True},
+                       {"at": 70, "op": "run", "mark": 1, "yield": True}, {"at": 75, "op": "run", "mark": 2, "yield": True}]
+                extra.append({"id": 0, "idle_graceful": True, "no_kill": True,
+                              "script": {"children": [{"self_exit": None, "ignore_all": True}, {"self_exit": None, "ignore_all": True}], "spawn_fail": [], "signal_fail": [0], "kill_fail": []},
+                              "ops": ops, "waiters": 1, "tail": 1000})
         return job_check(self, "thorough" if deep else tier, seed, monitor, extra)
 
 
